@@ -2,29 +2,15 @@
   Driver: reads trace lines on stdin, runs the model on every `op` line and prints one `=> …`
   line per operation.  Core Lean only.
 -/
-import GoatModel.Prelude
-import GoatModel.Sha256
-import GoatModel.Wire
-import GoatModel.Merkle
+import GoatModel.World
 open Goat Goat.Wire
 
-structure DState where
-  dummy : Nat := 0
-
-def stepOp (s : DState) (o : Op) : DState × String :=
-  match o.kind with
-  | "merkle.verify" =>
-    let r := Merkle.verify Sha256.dsha256 (o.bytes "txid") (o.bytes "root") (o.bytes "proof") (o.nat "index")
-    (s, s!"=> {boolStr r}")
-  | "sha256" => (s, s!"=> {toHex (Sha256.sha256 (o.bytes "data"))}")
-  | k => (s, s!"=> unknown-op {k}")
-
-partial def loop (h : IO.FS.Stream) (out : IO.FS.Stream) (s : DState) : IO Unit := do
+partial def loop (h : IO.FS.Stream) (out : IO.FS.Stream) (s : World.W) : IO Unit := do
   let line ← h.getLine
   if line.isEmpty then return ()
   match parseOp line with
   | some o =>
-    let (s', r) := stepOp s o
+    let (s', r) := World.step s o
     out.putStrLn r
     loop h out s'
   | none => loop h out s
